@@ -38,6 +38,10 @@ int rdarg() { return rdparam(g); }
 int rdindex() { return CA[g]; }
 int rdcond() { if (g > 0) { return 1; } return 2; }
 int rdassert() { assert(g >= 0); return 1; }
+int rdlhsindex() { int l[3] = { 10, 20, 30 }; l[g] = 0; return l[0] + l[1] + l[2]; }
+typedef struct { int v[3]; } RV;
+int rdlhsfield() { RV r; r.v[g] = 7; return r.v[0]; }
+int rdlhsnested() { int l[3]; int m[3]; l[m[g]] = 1; return l[0]; }
 void fill(int &o) { o = g; }
 int viavoid() { int l; fill(l); return l; }
 void fill2(int &o) { fill(o); }
@@ -56,7 +60,7 @@ int pureloop() { int i; int t = 0; for (i = 0; i < N; i++) { t += i; } return t;
 MUTABLE = ["g", "g + 1", "N + g", "a[0]", "a[N]", "s.f", "rd()", "rd2()", "rd3()", "rd4()", "rdarr()", "rdfield()", "rdif()",
            "rdloop()", "N + rd()", "(b ? 1 : g)", "(N > 1 ? g : 2)", "rdparam(g)", "rdparam(rd())", "pure() + rd2()", "abs(g)",
            "(g <? 3)", "CA[g]", "-g", "rdlocalinit()", "rdlocalarr()", "rdnestedarr()", "rdstructinit()", "rdwhile()", "rddo()",
-           "rditer()", "rdret()", "rdarg()", "rdindex()", "rdcond()", "rdassert()", "viavoid()", "viavoid2()", "viapeek()",
+           "rditer()", "rdret()", "rdarg()", "rdindex()", "rdcond()", "rdassert()", "viavoid()", "viavoid2()", "viapeek()", "rdlhsindex()", "rdlhsfield()", "rdlhsnested()", "2 * rdlhsindex()",
            "rdparam(viavoid())"]
 PURE = ["viavoidpure()", "viapurevoid()", "N", "N + 1", "K1", "K2", "K2 - K1", "pure()", "pure2()", "purearr()", "pureloop()", "rdparam(N)", "rdparam(pure())", "CA[0]",
         "CA[N - 1]", "CS.f", "(N > 1 ? 2 : 3)", "(1 << N)", "abs(N)", "(K1 <? K2)", "3", "K1 * K2 % 5 + 1",
@@ -96,6 +100,10 @@ def free_param_cases():
               "array-size-via-const-and-function": "const int m1 = n; const int m2 = rdparam(m1); int la[m2];",
               "array-size-2d-second": "const int m1 = n + 1; const int m2 = m1; int la[2][m2];",
               "struct-field-array-size": "const int m1 = n + 1; const int m2 = m1; typedef struct { int f[m2]; } lt_t; lt_t lv;",
+              "array-index-range-lower-bound": "int la[int[n,5]];",
+              "array-index-range-upper-bound": "int la[int[0,n]];",
+              "array-index-range-lower-bound-via-const": "const int lo = n; int la[int[lo,7]];",
+              "array-of-array-index-range": "int la[2][int[n,4]];",
               "function-local-array-size": "int lf() { int la[n + 1]; la[0] = 1; return la[0]; }",
               "function-local-array-size-via-const": "const int m1 = n + 1; int lf() { int la[m1]; return 1; }",
               "function-nested-block-array-size": "void lf() { { { bool lb[n + 2]; lb[0] = true; } } }",
